@@ -29,7 +29,7 @@ func init() {
 			return 7200
 		},
 		Run:      runC03,
-		Required: []string{"epochs", "innovations.link", "innovations.node", "reuse.link", "reuse.node", "epochs.parallel", "scenarios.modular_start_genome"},
+		Required: []string{"epochs", "innovations.link", "innovations.node", "reuse.link", "reuse.node", "epochs.parallel", "scenarios.modular_start_genome", "epochs.aborted_by_cancellation_then_made_again"},
 	})
 }
 
@@ -94,6 +94,16 @@ func runC03(c *Ctx, idx int) {
 		sc.RestoreAt = 0
 		sc.Epochs = 2
 		c.Count("scenarios.hundreds_of_innovations_per_generation", 1)
+	}
+	if idx%4 == 2 && idx%32 != 17 && idx%8 != 5 {
+		// a turnover that is cancelled while the species reproduce and made again: the numbers the aborted attempt issued are part
+		// of the population's history (everything survives, so that the turnover can be made again)
+		sc.Opts.SurvivalThresh = 1.0
+		sc.AbortAt = 2 + r.Intn(sc.Epochs-3)
+		if sc.RestoreAt == sc.AbortAt {
+			sc.RestoreAt = 0
+		}
+		c.Count("scenarios.with_an_aborted_turnover", 1)
 	}
 	mon := &innovMonitor{links: map[int64]linkKey{}, roles: map[int]byte{}}
 	runScenario(c, sc, mon)
